@@ -59,6 +59,8 @@ where
                         stored_to - from,
                     )
                 };
+                #[cfg(feature = "verif_hooks")]
+                rawdb::verif::access(|| rawdb::verif::AccessEvent::Ptr { addr: src.as_ptr() as usize, len: (stored_to - from) * Self::SIZE_OF_T });
                 buf.extend_from_slice(src);
             } else {
                 self.fold_source(from, stored_to, (), |(), v| buf.push(v));
